@@ -229,4 +229,29 @@ def run_extension_rule(run, rule_id="C09.ext"):
                 ok = text in ("Bit(0)", "Bit(False)", "Bit('0')")
                 exp = "constant zero bit"
             run.ob(ok, f"{own}.add", file=rel, line=c.lineno, detail=f"extend[{base}]", expected=exp, found=f"{src(arg)} = {text}")
+        # trial assignment from a narrower source: every bit of the target is (re)written - the bits above the source get
+        # the source's extension (zero / the sign), never keep the target's previous content
+        for fn in ("_assign",):
+            g = mod.func(f"{own}.{fn}")
+            zips = [c for c in ast.walk(g.node) if isinstance(c, ast.Call) and isinstance(c.func, ast.Attribute) and c.func.attr == "apply_zip"]
+            if not zips:
+                raise AnalysisError(f"{own}.{fn}: bit-copy sites not found")
+            for k, c in enumerate(zips):
+                a = c.args[1] if len(c.args) > 1 else None
+                ext = isinstance(a, ast.Call) and isinstance(a.func, ast.Attribute) and a.func.attr == "iter_extend" and a.args
+                fill = src(a.args[0]) if ext else None
+                if own == "Unsigned":
+                    ok = ext and fill in ("'0'", '"0"', "Bit(0)", "Bit(False)")
+                    exp = "<source>.iter_extend(zero)"
+                else:
+                    neg = any(isinstance(anc, ast.If) and src(anc.test).replace(" ", "") in ("other<0",) and any(x is c for b in anc.body for x in ast.walk(b)) for anc in mod.parents.ancestors(c))
+                    ok = ext and fill in (("'1'", '"1"') if neg else ("'0'", '"0"'))
+                    exp = "<bits>.iter_extend('1')" if neg else "<bits>.iter_extend('0')"
+                run.ob(bool(ok), f"{own}.{fn}", file=rel, line=c.lineno, detail=f"fill#{k}", expected=exp + " (all target bits written)", found=src(a)[:60] if a is not None else "?")
+    # two's complement negation wraps (like numeric_std), it never saturates
+    sm = idx.mod("cohdl/_core/_signed.py")
+    ng = sm.func("Signed.__neg__")
+    rets = [r for r in walk_local(ng.node) if isinstance(r, ast.Return)]
+    ok = any(src(r.value) in ("~self + 1", "(~self) + 1", "1 + ~self") for r in rets) and not any(isinstance(c.func, ast.Attribute) and c.func.attr in ("max_int", "min_int", "max", "min") for c in ast.walk(ng.node) if isinstance(c, ast.Call))
+    run.ob(ok, "Signed.__neg__", file=sm.rel, line=ng.node.lineno, detail="wraps", expected="~self + 1 (the most negative value maps to itself, as in numeric_std)", found="; ".join(src(r.value)[:40] for r in rets))
     run.end()
